@@ -22,6 +22,7 @@
    Model file: no proofs. *)
 From Coq Require Import ZArith QArith List Bool.
 From RV Require Import Base.Wire Base.Text Lang.PyAst Lang.Infer Lang.InferGuard Lang.InferComp Lang.EmitScope.
+From RV Require Lang.Decl.
 Import ListNotations.
 Open Scope Z_scope.
 
@@ -148,3 +149,27 @@ Definition nested_prog : list (ident * rhs) :=
     (n_xs, RComp n_v (EInt 3) (RComp n_v (EInt 2) (RPlain (EBin Add (EName n_v) (EInt 1)))));
     (n_w, RPlain (EName n_v));
     (n_v, RPlain (EStr [109; 109])) ].
+
+(* ------------------------------------------------------------------ 4. the binder the transpiler does NOT give a scope: a function's local
+   of the name of a module-level variable (F-C06-fn-local-shadows-global).  Over Lang/Decl.v's model of _parse_function (the child
+   context starts with a copy of var_declared, so the global's name counts as declared and the assignment declares nothing):
+   [fn_assign_consistent] - the declaration a function body's assignment  x = <value of label t>  writes to (parameter, local,
+   else the global) has the C++ type of t. *)
+Definition fn_assign_consistent (globals : list (ident * cty)) (d : Decl.fdef) (x : ident) (t : ty) : bool :=
+  match tlookup x (Decl.fd_params d ++ Decl.fd_locals d) with
+  | Some c => cty_eqb c (cpp_type t)
+  | None => match tlookup x globals with Some c => cty_eqb c (cpp_type t) | None => false end
+  end.
+
+Definition n_label : ident := [108;97;98;101;108].
+Definition n_twice : ident := [116;119;105;99;101].
+(* label = "ab" ; def twice(): label = 4 ; return label * 2 *)
+Definition shadow_items : list Decl.item :=
+  [ Decl.IStmt (Decl.SAssign n_label (EStr [97;98]));
+    Decl.IDef n_twice (Decl.mk_fsrc [] None
+      (Decl.block_of [Decl.SAssign n_label (EInt 4); Decl.SReturn (Some (EBin Mult (EName n_label) (EInt 2)))])) ].
+(* label = 7 ; def twice(): label = 4 ; return label * 2   (the way the generators write a global from a function) *)
+Definition same_type_items : list Decl.item :=
+  [ Decl.IStmt (Decl.SAssign n_label (EInt 7));
+    Decl.IDef n_twice (Decl.mk_fsrc [] None
+      (Decl.block_of [Decl.SAssign n_label (EInt 4); Decl.SReturn (Some (EBin Mult (EName n_label) (EInt 2)))])) ].
